@@ -11,6 +11,7 @@ import MpycV.Lemmas.NumThRoots
 import MpycV.Lemmas.NumThFpp
 import MpycV.Lemmas.NumThFppComplete
 import MpycV.Lemmas.NumThRatrec
+import MpycV.Lemmas.NumThSrcBridge   -- not used here: imported so that set-up prebuilds the bridge of PropsGen/C25Src
 
 namespace MpycV.C25
 open MpycV.NumTh NumberTheorySymbols
